@@ -128,7 +128,7 @@ KIND = {"ok_cl": "WfOkCL", "ok_chunked": "WfOkChunked", "stall_short": "WfStallS
         "reset_mid_cl": "WfResetMidCL", "close_mid_cl": "WfCloseMidCL", "close_mid_chunk": "WfCloseMidChunk",
         "no_terminal_chunk": "WfNoTerminalChunk", "bad_chunk_size": "WfBadChunkSize", "reset_mid_eof": "WfResetMidEOF"}
 
-KNOWN_IDS = {1: "C15-F1-dial-not-bounded", 2: "C15-F2-request-write-not-bounded"}
+KNOWN_IDS = {1: "C15-F1-dial-not-bounded", 2: "C15-F2-request-write-not-bounded", 3: "C15-F3-unread-body-stuck-in-dial"}
 HTML = "text/html; charset=utf-8"
 
 
@@ -229,6 +229,24 @@ def evaluate(work, name, builtin, custom, terms):
     return parse_failures(txt)
 
 
+def evaluate_f3(work, name, builtin, custom, c, o):
+    """corr/C15f3.f3_excused on one sequence: is it fine apart from requests with an unread body stuck in an unbounded dial?"""
+    pages = Pages()
+    steps = list_lit([step_terms(pages, st, so) for st, so in zip(c["steps"], o["steps"])])
+    evs = list_lit([bev_term(e) for e in (o.get("events") or [])])
+    q = "(mkSeqObs %s %d %d %s)" % (steps, o["drain_ms"], max(o["inflight_end"], 0) if o["inflight_end"] >= 0 else 1, evs)
+    unread = list_lit([bool_lit(st.get("req_len", 0) > 0) for st in c["steps"]])
+    env = "mkEnv %d %d %d %d %s %s" % (TIMEOUT_MS, MARGIN_MS - 100, EPS_MS, 1000, tpl_term(pages, builtin), tpl_term(pages, custom))
+    body = ("Definition pages : list str := %s.\nDefinition e : env := %s.\n"
+            "Definition R := Eval vm_compute in f3_excused e %s %s 10000 %s.\n") % (
+        list_lit([str_lit(b) for b in pages.items]), env, svc_term(SERVICES[c["svc"]]), unread, q)
+    txt = coq_eval(work, name, "From KP Require Import model.Base model.Trace model.Buffer model.ProxyError model.ErrorPage "
+                               "corr.C15corr corr.C15f3.\nLocal Open Scope N_scope.", body, "R").strip()
+    if txt not in ("true", "false"):
+        raise RuntimeError("unexpected f3 verdict: " + txt[:200])
+    return txt == "true"
+
+
 def execute(work, cases, stalls):
     """Run both harness tests; (ok, output, observations, stall observations)."""
     write_jsonl(work.path("cases.jsonl"), cases)
@@ -315,7 +333,7 @@ def run(tier, seed):
     res = Result(PROP, tier, seed)
     work = Work(PROP)
     try:
-        ok, blog = coq_build(["props/C15.vo", "corr/C15corr.vo"])
+        ok, blog = coq_build(["props/C15.vo", "corr/C15corr.vo", "corr/C15f3.vo"])
         proofs_ok, pa = proof_obligations(work, res, "C15.v", ok, blog)
         cases = gen_cases(seed, tier)
         stalls = gen_stall_cases(seed, tier)
@@ -331,6 +349,12 @@ def run(tier, seed):
         # ---- verdicts
         listed = {e["id"]: e for e in known_findings(PROP)}
         real_mon, disagree, known_hits = [], [], {}
+        f3_custom = {}
+        for fname, hx in ((obs[0] if obs else {}).get("custom_pages") or {}).items():
+            mm = re.fullmatch(r"(\d+)\.html", fname)
+            if mm and b"{{" not in bytes.fromhex(hx):
+                f3_custom[int(mm.group(1))] = bytes.fromhex(hx)
+        f3_pages = (read_builtin(), f3_custom)
         for j, (a, m) in sorted(failing.items()):
             if not m:
                 ks = known.get(j, {})
@@ -339,6 +363,9 @@ def run(tier, seed):
                         known_hits.setdefault(k, []).append(j)
                     if not a:
                         disagree.append(j)
+                elif (all_cases[j][0] == "seq" and "C15-F3-unread-body-stuck-in-dial" in listed and
+                      evaluate_f3(work, "F3_%d" % j, *f3_pages, all_cases[j][1], all_cases[j][2])):
+                    known_hits.setdefault(3, []).append(j)
                 else:
                     real_mon.append(j)
             elif not a:
